@@ -39,6 +39,10 @@ def configs(tier):
                 add(2, sizes, N, 3 if N < 4 else 2, 2)
     if q:
         add(2, [2, 3], 2, 3, 1)
+    # the distribution of one loader object is replaced between two samplings (setter / re-created empirical table)
+    for how in ("setter", "empirical"):
+        cfgs.append({"name": f"resample-{how}-N2", "K": 1, "sizes": [2], "N": 2, "nk": 2, "D": 2, "resample": how})
+        cfgs.append({"name": f"resample-{how}-K2-N2", "K": 2, "sizes": [2, 3], "N": 2 if q else 3, "nk": 2, "D": 1, "resample": how})
     return cfgs
 
 
@@ -57,16 +61,48 @@ def fork_keys(ctx, K, D, nk_max):
 
 
 def path(ctx, cfg):
+    from gcmpy.joint_degree.joint_degree_loaders.joint_degree_empirical import JointDegreeEmpirical
     from gcmpy.joint_degree.joint_degree_loaders.joint_degree_manual import JointDegreeManual
     from gcmpy.names.joint_degree_names import JointDegreeNames as JN
 
     K, sizes, N = cfg["K"], cfg["sizes"], cfg["N"]
+    how = cfg.get("resample")
+    if how == "empirical":
+        # empirical loader: observed sequence 1 -> sample -> sequence 2 through the public setter + create_jdd() -> sample
+        def seq(tag):
+            L = ctx.fork_int(ctx.int(f"len{tag}", 1, 2))
+            return [tuple(ctx.fork_int(ctx.int(f"s{tag}{j}_{i}", 0, cfg["D"])) for i in range(K)) for j in range(L)]
+
+        s1, s2 = seq("a"), seq("b")
+        loader = ctx.guard("loader-raised", JointDegreeEmpirical, {JN.JDS: list(s1), JN.MOTIF_SIZES: list(sizes)})
+        ctx.guard("sampling-raised", loader.sample_jds_from_jdd, 1)  # one draw is enough to populate any per-object state
+        loader.empirical_jds = list(s2)
+        ctx.guard("loader-raised", loader.create_jdd)
+        keys = list(dict.fromkeys(s2))
+        W = [s2.count(k) for k in keys]
+        n0 = len(ctx.rng_log)
+        out = ctx.guard("sampling-raised", loader.sample_jds_from_jdd, N)
+        return check_sample(ctx, f"empirical {s1} then {s2} sizes={sizes} N={N} (second sample)", out, keys, W, sizes, N, K, n0)
     keys = fork_keys(ctx, K, cfg["D"], cfg["nk"])
     W = [ctx.real(f"w{j}", 0, lo_strict=True) for j in range(len(keys))]
     jdd = {k: w for k, w in zip(keys, W)}
     desc = f"keys={keys} sizes={sizes} N={N}"
     loader = ctx.guard("loader-raised", JointDegreeManual, {JN.JDD: jdd, JN.MOTIF_SIZES: list(sizes)})
-    out = ctx.guard("sampling-raised", loader.sample_jds_from_jdd, N)
+    n0 = len(ctx.rng_log)
+    out = ctx.guard("sampling-raised", loader.sample_jds_from_jdd, N if how is None else 1)
+    if how == "setter":
+        # replace the distribution through the public setter and sample again: the second sample must follow the new one
+        keys = [tuple((x + 1 + j) % (cfg["D"] + 1) for x in k) for j, k in enumerate(keys)]
+        keys = list(dict.fromkeys(keys))
+        W = [ctx.real(f"v{j}", 0, lo_strict=True) for j in range(len(keys))]
+        loader.jdd = {k: w for k, w in zip(keys, W)}
+        desc = f"after replacing the distribution by keys={keys} sizes={sizes} N={N} (second sample)"
+        n0 = len(ctx.rng_log)
+        out = ctx.guard("sampling-raised", loader.sample_jds_from_jdd, N)
+    return check_sample(ctx, desc, out, keys, W, sizes, N, K, n0)
+
+
+def check_sample(ctx, desc, out, keys, W, sizes, N, K, n0):
     ctx.require(isinstance(out, list) and len(out) == N, "length", f"{desc}: {len(out)} entries returned", twin=(len(out) == N + 1))
     if len(out) != N:
         return
@@ -85,9 +121,13 @@ def path(ctx, cfg):
     ctx.require(all_(conds_div), "divisible", lambda: f"{desc}: column sums of {out} are not divisible by {sizes}",
                 twin=all_(eq((sum_(e[k] for e in out) + 1) % sizes[k], 0) for k in range(K)) if max(sizes) > 1 else None)
     ctx.require(all_(conds_nn), "non-negative", f"{desc}: negative entry in {out}")
-    ch = [c for c in ctx.rng_log if c["fn"] == "choices"]
-    if len(ch) != 1 or any(c["fn"] not in ("choices", "randrange") for c in ctx.rng_log):
+    log = ctx.rng_log[n0:]
+    ch = [c for c in log if c["fn"] == "choices"]
+    if any(c["fn"] not in ("choices", "randrange", "sample") for c in log) or len(ch) > 1:
         ctx.note("undecided: the draw is not made by exactly one random.choices call (law / minimality not decided)")
+        return
+    ctx.require(len(ch) == 1, "weighted-draw", f"{desc}: no weighted draw was made for this sample (RNG calls: {[c['fn'] for c in log]})", sig="weighted-draw:none")
+    if len(ch) != 1:
         return
     rec = ch[0]
     ok_call = rec["k"] == N and list(rec["population"]) == list(keys) and rec["weights"] is not None and len(rec["weights"]) == len(keys)
